@@ -432,4 +432,86 @@ theorem setPathCopy_win {b : Nat} (c : Copy) (v : HV) : ∀ (path : List String)
       exact ⟨hn.1, all_setLocal k x _
         (all_mono (fun i hi => inR_mono (Nat.le_refl _) hn.1 i hi) _ hx) hn.2⟩
 
+/-! ### `_add_field`: what it builds is made of what was there, the value and new objects -/
+
+mutual
+  theorem addFieldV_win {b : Nat} (ci : Copy) : ∀ (x : HV) (new : HV) (ps : List String) (n : Nat),
+      b ≤ n → x.all (inR b n) = true → new.all (inR b n) = true →
+      n ≤ (addFieldV ci new x ps n).2 ∧
+        (addFieldV ci new x ps n).1.all (inR b (addFieldV ci new x ps n).2) = true
+    | x, new, [], n, _, _, hv => by
+      cases x <;> simp only [addFieldV] <;> exact ⟨Nat.le_refl _, hv⟩
+    | .atom a, new, p :: ps, n, hb, _, hv => by
+      simp only [addFieldV]
+      exact nestNew_win (b := b) (p :: ps) new n hb hv
+    | .node i false items, new, p :: ps, n, hb, hx, hv => by
+      simp only [HV.all, Bool.and_eq_true] at hx
+      have hm : ∀ q, inR b n q = true → inR b (n + 1) q = true :=
+        fun q hq => inR_mono (Nat.le_refl _) (Nat.le_succ _) q hq
+      have h := addFieldItems_win (b := b) ci items new (p :: ps) (n + 1) (by omega)
+        (allKids_mono hm _ hx.2) (all_mono hm _ hv)
+      simp only [addFieldV, HV.all, Bool.and_eq_true]
+      exact ⟨by omega, inR_tmp hb (by omega), h.2⟩
+    | .node i true kids, new, p :: ps, n, hb, hx, hv => by
+      simp only [HV.all, Bool.and_eq_true] at hx
+      have hm : ∀ q, inR b n q = true → inR b (n + 1) q = true :=
+        fun q hq => inR_mono (Nat.le_refl _) (Nat.le_succ _) q hq
+      have h := addFieldKey_win (b := b) ci kids new p ps (n + 1) (by omega)
+        (allKids_mono hm _ hx.2) (all_mono hm _ hv)
+      simp only [addFieldV, HV.all, Bool.and_eq_true]
+      exact ⟨by omega, inR_tmp hb (by omega), h.2⟩
+  theorem addFieldItems_win {b : Nat} (ci : Copy) : ∀ (items : Kids) (new : HV) (ps : List String) (n : Nat),
+      b ≤ n → allKids (inR b n) items = true → new.all (inR b n) = true →
+      n ≤ (addFieldItems ci new items ps n).2 ∧
+        allKids (inR b (addFieldItems ci new items ps n).2) (addFieldItems ci new items ps n).1 = true
+    | [], new, ps, n, _, _, _ => by simp [addFieldItems, allKids]
+    | (k, it) :: r, new, ps, n, hb, hi, hv => by
+      simp only [allKids, Bool.and_eq_true] at hi
+      have hc := copyRun_win (b := b) ci new n hb hv
+      have hm1 : ∀ q, inR b n q = true → inR b (ci.run new n).2 q = true :=
+        fun q hq => inR_mono (Nat.le_refl _) hc.1 q hq
+      have h1 := addFieldV_win (b := b) ci it (ci.run new n).1 ps (ci.run new n).2
+        (Nat.le_trans hb hc.1) (all_mono hm1 _ hi.1) hc.2
+      have hm2 : ∀ q, inR b n q = true →
+          inR b (addFieldV ci (ci.run new n).1 it ps (ci.run new n).2).2 q = true :=
+        fun q hq => inR_mono (Nat.le_refl _) (Nat.le_trans hc.1 h1.1) q hq
+      have h2 := addFieldItems_win (b := b) ci r new ps
+        (addFieldV ci (ci.run new n).1 it ps (ci.run new n).2).2
+        (Nat.le_trans hb (Nat.le_trans hc.1 h1.1)) (allKids_mono hm2 _ hi.2) (all_mono hm2 _ hv)
+      simp only [addFieldItems, allKids, Bool.and_eq_true]
+      exact ⟨Nat.le_trans (Nat.le_trans hc.1 h1.1) h2.1,
+        all_mono (fun q hq => inR_mono (Nat.le_refl _) h2.1 q hq) _ h1.2, h2.2⟩
+  theorem addFieldKey_win {b : Nat} (ci : Copy) : ∀ (kids : Kids) (new : HV) (p : String) (ps : List String) (n : Nat),
+      b ≤ n → allKids (inR b n) kids = true → new.all (inR b n) = true →
+      n ≤ (addFieldKey ci new p ps kids n).2 ∧
+        allKids (inR b (addFieldKey ci new p ps kids n).2) (addFieldKey ci new p ps kids n).1 = true
+    | [], new, p, ps, n, hb, _, hv => by
+      have hn := nestNew_win (b := b) ps new n hb hv
+      simp only [addFieldKey, allKids, Bool.and_true]
+      exact hn
+    | (k, v) :: r, new, p, ps, n, hb, hk, hv => by
+      simp only [allKids, Bool.and_eq_true] at hk
+      simp only [addFieldKey]
+      split
+      · have h1 := addFieldV_win (b := b) ci v new ps n hb hk.1 hv
+        simp only [allKids, Bool.and_eq_true]
+        exact ⟨h1.1, h1.2, allKids_mono (fun q hq => inR_mono (Nat.le_refl _) h1.1 q hq) _ hk.2⟩
+      · have h2 := addFieldKey_win (b := b) ci r new p ps n hb hk.2 hv
+        simp only [allKids, Bool.and_eq_true]
+        exact ⟨h2.1, all_mono (fun q hq => inR_mono (Nat.le_refl _) h2.1 q hq) _ hk.1, h2.2⟩
+end
+
+theorem addFieldTop_win {b : Nat} (ci : Copy) (v : HV) (path : List String) (top : HV) (n : Nat)
+    (hb : b ≤ n) (ht : top.all (inR b n) = true) (hv : v.all (inR b n) = true) :
+    n ≤ (addFieldTop ci v path top n).2 ∧
+      (addFieldTop ci v path top n).1.all (inR b (addFieldTop ci v path top n).2) = true := by
+  unfold addFieldTop
+  split
+  · next p ps id kids =>
+    simp only [HV.all, Bool.and_eq_true] at ht
+    have h := addFieldKey_win (b := b) ci kids v p ps n hb ht.2 hv
+    simp only [HV.all, Bool.and_eq_true]
+    exact ⟨h.1, inR_mono (Nat.le_refl _) h.1 _ ht.1, h.2⟩
+  · exact ⟨Nat.le_refl _, ht⟩
+
 end MongoModel.Proofs.C16
